@@ -91,9 +91,10 @@ pub fn boundary_step<S: Src>(s: &mut S, n_concrete: u8) {
 /// Requests are queued in arrival order and none is dropped: `request_interrupt` appends.
 pub fn request_appends<S: Src>(s: &mut S, n: u8) {
     let mut cpu = mk_cpu(s, 0);
-    let q = [s.u8(), s.u8(), s.u8(), s.u8(), s.u8()];
+    // up to 9 requests: crosses two reallocations of the ring buffer (capacity 4 -> 8 -> 16)
+    let q = [s.u8(), s.u8(), s.u8(), s.u8(), s.u8(), s.u8(), s.u8(), s.u8(), s.u8()];
     let mut i = 0;
-    while i < 5 {
+    while i < 9 {
         if (i as u8) < n {
             cpu.vh_request_interrupt(q[i]);
         }
@@ -101,7 +102,7 @@ pub fn request_appends<S: Src>(s: &mut S, n: u8) {
     }
     let mut ok = cpu.vh_pending_len() == n as usize;
     i = 0;
-    while i < 5 {
+    while i < 9 {
         if (i as u8) < n && cpu.vh_pending(i) != Some(q[i]) {
             ok = false;
         }
